@@ -21,8 +21,8 @@ META = dict(
           "style) and its completeness per call by the verified scan of all of sup.G. Geometry is checked exactly in Coq only "
           "when positions are rational (scaled to integers), otherwise by the float evaluator (tolerance 1e-8). Completeness "
           "of sup.G itself (every space-group operation compatible with the superlattice is present) is evaluated only through "
-          "group closure and the expected order |G| = compatible point operations x size. Known: equivalencemap raises "
-          "ValueError on two defect-free supercells (key c27-equivmap-no-defects)."),
+          "group closure and the expected order |G| = compatible point operations x size. Defect-free pairs are part of every run "
+          "(key c27-equivmap-no-defects, repaired in /repo 5a1d92c)."),
     technique="Coq-verified checkers run on implementation outputs + brute-force evaluator",
 )
 
